@@ -9,8 +9,11 @@ spec -> code: RequiredUse_Export enumerates every constraint (<= N nodes over 2 
               the text is parsed by the real REQUIRED_USE parser and solved by the real solver.
 code -> spec: seeded random trees (||, ^^, ??, conditionals, negations, nested) over up to 5 flags, every
               IUSE subset, random forced / preferred sets.
-Every call is judged by RequiredUse_Trace against the brute-force solution set computed in TLA+; the
-constraint judged is the projection of the restriction object the solver received.
+Calls are made the way a caller checks one package against several configurations: the restriction and the
+IUSE set object are created once per (constraint, IUSE) and reused by the consecutive calls.  Every call is
+judged by RequiredUse_Trace against the brute-force solution set computed in TLA+ for the inputs the caller put
+in (clause ArgsUnchanged: the call left its argument objects as they were); the constraint judged is the
+projection of the restriction object the solver received.
 
 Carve-outs: an assignment on which the PMS reading (a disabled conditional inside an any-of/^^/?? group is no
 member of it - what evaluate_depset+match implements) and the classical reading (implication - what the solver
@@ -26,15 +29,31 @@ from pylib.common import rng, use_repo
 from drivers.c09_depset import Api, subsets, word
 
 
-def solve(api, solver, tid, text, iuse, ft, ff, pt):
-    d = api.parsers["required_use"](text)
-    sols = []
-    for s in solver(d, set(iuse), force_true=tuple(ft), force_false=tuple(ff), prefer_true=tuple(pt)):
-        sols.append(sorted(k for k, v in s.items() if v))
-        if len(sols) > 200:
-            raise tlc.MachineryError(f"solver does not stop: {text!r}")
-    return dict(tid=tid, i=0, cons=api.nodes(d), iuse=sorted(iuse), ft=sorted(ft), ff=sorted(ff), pt=sorted(pt), sols=sols,
-                text=text)
+class Caller:
+    """A caller that checks one package (constraint + IUSE) against several configurations: the parsed
+    restriction and the IUSE set OBJECT are created once and handed to every consecutive call, the forced /
+    preferred sets are fresh mutable sets per call.  Every call is recorded with the inputs the caller put in
+    and with the contents of the argument objects after the call."""
+
+    def __init__(self, api, solver):
+        self.api, self.solver, self.key = api, solver, None
+
+    def solve(self, tid, text, iuse, ft, ff, pt):
+        key = (text, tuple(sorted(iuse)))
+        if key != self.key:
+            self.key = key
+            self.restricts = self.api.parsers["required_use"](text)
+            self.cons = self.api.nodes(self.restricts)
+            self.iuse_obj = set(iuse)
+        a_ft, a_ff, a_pt = set(ft), set(ff), set(pt)
+        sols = []
+        for s in self.solver(self.restricts, self.iuse_obj, force_true=a_ft, force_false=a_ff, prefer_true=a_pt):
+            sols.append(sorted(k for k, v in s.items() if v))
+            if len(sols) > 200:
+                raise tlc.MachineryError(f"solver does not stop: {text!r}")
+        after = dict(iuse=sorted(self.iuse_obj), ft=sorted(a_ft), ff=sorted(a_ff), pt=sorted(a_pt))
+        return dict(tid=tid, i=0, cons=self.cons, iuse=sorted(iuse), ft=sorted(ft), ff=sorted(ff), pt=sorted(pt), sols=sols,
+                    after=after, text=text)
 
 
 def judge(ck, events, label):
@@ -45,9 +64,14 @@ def judge(ck, events, label):
             e = by[v["tid"]]
             if v["clause"] == "OutsideDomain":
                 raise tlc.MachineryError(f"generator left the property's domain: {e}")
+            earlier = []
+            t = e["tid"] - 1
+            while t in by and by[t]["text"] == e["text"] and by[t]["iuse"] == e["iuse"] and len(earlier) < 8:
+                earlier.insert(0, dict(force_true=by[t]["ft"], force_false=by[t]["ff"], prefer_true=by[t]["pt"]))
+                t -= 1
             ck.violation(v["clause"], dict(required_use=e["text"], iuse=e["iuse"], force_true=e["ft"], force_false=e["ff"],
                                            prefer_true=e["pt"], assignment=v["extra"][0] if v["extra"] else [],
-                                           produced=e["sols"][:12]))
+                                           produced=e["sols"][:12], args_after=e["after"], earlier_calls=earlier))
 
 
 FLAGS = ["a", "b", "c", "d", "e"]
@@ -84,8 +108,10 @@ def run(ck):
     ]
     if ck.replay_case:
         d = ck.replay_case["detail"]
-        ev = solve(api, solver, 0, d["required_use"], d["iuse"], d["force_true"], d["force_false"], d["prefer_true"])
-        judge(ck, [ev], "Trace:replay")
+        caller = Caller(api, solver)
+        evs = [caller.solve(n, d["required_use"], d["iuse"], c["force_true"], c["force_false"], c["prefer_true"])
+               for n, c in enumerate(d.get("earlier_calls", []) + [d])]
+        judge(ck, evs, "Trace:replay")
         ck.count()
         ck.nontriv("replay")
         ck.nontriv("replay2")
@@ -102,9 +128,14 @@ def run(ck):
     cases = ck.export("RequiredUse_Export", cfg_text=f"CONSTANTS\n  FlagSet = {{\"a\", \"b\"}}\n  MaxNodes = {ne}\n", timeout=900,
                       label=f"Export:RequiredUse_Export MaxNodes={ne}")
     events = []
+    caller = Caller(api, solver)
+    for c in cases:
+        c["text"] = " ".join(word(t) for t in c["toks"])
+    # consecutive calls for the same (constraint, IUSE) reuse the caller's objects
+    cases.sort(key=lambda c: (c["text"], c["iuse"], c["ft"], c["ff"], c["pt"]))
     for tid, c in enumerate(cases):
-        text = " ".join(word(t) for t in c["toks"])
-        ev = solve(api, solver, tid, text, c["iuse"], c["ft"], c["ff"], c["pt"])
+        text = c["text"]
+        ev = caller.solve(tid, text, c["iuse"], c["ft"], c["ff"], c["pt"])
         events.append(ev)
         ck.count()
         if "(" in text and len(c["iuse"]) - len(set(c["ft"]) | (set(c["ff"]) & set(c["iuse"]))) >= 1:
@@ -120,7 +151,7 @@ def run(ck):
         text = " ".join(gen(r_, flags, r_.randint(1, 3)))
         if len(text.split()) > 36:
             continue
-        for iuse in subsets(flags):
+        for iuse in [u for u in subsets(flags) for _ in range(2)]:  # two configurations per (constraint, IUSE)
             rest = list(iuse)
             r_.shuffle(rest)
             nft = r_.randint(0, min(2, len(rest)))
@@ -130,7 +161,7 @@ def run(ck):
                 ft = ft + [r_.choice(outside)]
             ff = [f for f in flags if f not in ft and r_.random() < 0.25]
             pt = [f for f in flags if r_.random() < 0.4]
-            ev = solve(api, solver, base + len(events), text, iuse, ft, ff, pt)
+            ev = caller.solve(base + len(events), text, iuse, ft, ff, pt)
             events.append(ev)
             ck.count()
             if "(" in text and len(set(iuse) - set(ft) - set(ff)) >= 1:
